@@ -44,7 +44,8 @@ Definition step (st : rstate) (op : list tok) : rstate * list tok :=
   let c := rc st in
   match op with
   | TS name :: args =>
-    if name =? "conv" then
+    if name =? "blackbox" then (st, [])   (* a black-box scenario: replayed by the driver, nothing to model *)
+    else if name =? "conv" then
       match args with
       | TN w :: TN mf :: TN _ :: TN inc :: TN peers :: chunks =>
         (st, conv_toks w mf (Z.eqb inc 1 && Z.ltb 1 peers) (zs chunks))
